@@ -189,7 +189,37 @@ def behaviours() -> List[Dict[str, Any]]:
     return bs
 
 
-BEHAVIOURS = behaviours()
+ERROBJ_SHAPES: Dict[str, Any] = {
+    "well-typed": {"code": -32001, "message": "denied"},
+    "code-string": {"code": "token_expired", "message": "token expired"},
+    "code-digit-string": {"code": "401", "message": "unauthorized"},
+    "code-float": {"code": 401.5, "message": "x"},
+    "code-bool": {"code": True, "message": "x"},
+    "code-null": {"code": None, "message": "x"},
+    "code-missing": {"message": "x"},
+    "message-int": {"code": -32000, "message": 17},
+    "message-null": {"code": -32000, "message": None},
+    "message-list": {"code": -32000, "message": ["a", "b"]},
+    "message-missing": {"code": -32000},
+    "extra-members": {"code": -32000, "message": "x", "data": {"k": None}, "type": "auth", "retry": 3},
+    "empty-object": {},
+    "error-is-string": "token_expired",
+    "error-is-list": [{"code": -32000, "message": "x"}],
+    "error-is-null": None,
+}
+
+
+def behaviours_error_objects() -> List[Dict[str, Any]]:
+    """Appended AFTER the older behaviours (configurations refer to behaviours by index)."""
+    bs = []
+    for status in (400, 401, 500):
+        for shape in ERROBJ_SHAPES:
+            for form in ("enveloped", "bare"):
+                bs.append({"status": status, "ctype": "json", "body": f"errobj:{form}:{shape}"})
+    return bs
+
+
+BEHAVIOURS = behaviours() + behaviours_error_objects()
 OK_B = {"status": 200, "ctype": "json", "body": "resp"}
 CT = {"json": "application/json", "sse": "text/event-stream", "text": "text/plain; charset=utf-8"}
 
@@ -206,6 +236,14 @@ def render(b: Dict[str, Any], rid: Any) -> Tuple[bytes, Optional[str]]:
             return b"event: message\ndata: hello there\n\n", ctype
         msgs = body_messages(body, rid)
         return sse_encode(msgs, b.get("enc", "canonical"), body == "batch").encode("utf-8"), ctype
+    if body.startswith("errobj:"):
+        _, form, shape = body.split(":")
+        obj: Dict[str, Any] = {"error": ERROBJ_SHAPES[shape]}
+        if form == "enveloped":
+            obj = {"jsonrpc": "2.0", "id": rid if rid is not None else "srv-x", **obj}
+        else:
+            obj["detail"] = "see the error member"
+        return json.dumps(obj).encode("utf-8"), ctype
     if body == "truncated":
         return b'{"jsonrpc":"2.0","id":', ctype
     if body == "nonjson":
@@ -417,6 +455,9 @@ def judge(steps, rids, got_per_step, posts):
                 # notification POST: nothing carrying an id may appear
                 if all(isinstance(g, dict) and g.get("id") is None for g in got) and len(got) <= 1:
                     ok, how = True, "nothing" if not got else "idless-error"
+                    if got and classify({**got[0], "id": 0})[0] != "error":
+                        # what the TRANSPORT makes up must satisfy the envelope grammar (integer code, string message)
+                        ok, how = False, None
             elif len(got) == 1 and isinstance(got[0], dict) and type(got[0].get("id")) is type(rid) and got[0].get("id") == rid \
                     and classify(got[0])[0] in ("error", "result"):
                 ok, how = True, "synth-" + classify(got[0])[0]
@@ -799,7 +840,10 @@ def run(tier: str, only=None) -> core.Result:
     res.coverage["rule"] = (
         f"{len(BEHAVIOURS)} per-request server behaviours (3 transport exceptions; status 200/202 x content-type "
         "json/event-stream/text/absent x body response/error/batch array/notifications+response/wrong id/empty/truncated/"
-        "non-JSON/non-UTF-8 x 8 SSE encodings; 204; 301 followed; 302 without Location; 400/401/404/500/503 x 3 bodies) x "
+        "non-JSON/non-UTF-8 x 8 SSE encodings; 204; 301 followed; 302 without Location; 400/401/404/500/503 x 3 bodies; 400/401/500 with a JSON body whose "
+        "'error' member has one of 16 shapes - well-typed, code string / digit string / float / bool / null / missing, message int / "
+        "null / list / missing, extra members, {}, string, list, null - enveloped or bare: whatever the transport synthesises must "
+        "be a valid JSON-RPC error or result carrying the request's id) x "
         "request kinds {string id, id 0, integer id, notification} x session header issued or not, each followed by a plain "
         "request; all sequences of <=3 (thorough 4) over 22 representative behaviours; all session sequences of <=4 over "
         "{issue S1, issue S2, no header, 4xx, exception}; bodies of 99/100/101/150 notifications + the response (JSON array, SSE "
